@@ -14,15 +14,16 @@ import ClvmProofs.Lemmas.RefMachine
 import ClvmProofs.Lemmas.RefLoops
 import ClvmProofs.Lemmas.RefBits
 import ClvmProofs.Lemmas.RefUnknown
+import ClvmProofs.Lemmas.RefTerm
 import ClvmProofs.Lemmas.Interp.MachineStepWf
 import ClvmProofs.Lemmas.Interp.LiftCore
 
 namespace Clvm.Ref
 open Clvm Clvm.Interp Clvm.Alloc
 
-/-- the adapters of the core fragment: all consensus adapters, operand lists read like the Python,
-`((X) …)` and opcode 36 outside the domain -/
-def coreAd0 : Adapters := Adapter.coreFragment (Proto.c01Adapters false)
+/-- all consensus adapters with the lenient reading of operand lists; only opcode 36 is outside the
+domain (`Adapter.noGuards`) -/
+def coreAd0 : Adapters := Adapter.noGuards (Proto.c01Adapters true)
 
 /-- opcodes of the classic operators whose per-operator agreement (`ref_op_eq_*`) is proved -/
 def provedOps : List Nat := [3, 4, 5, 6, 7, 8, 9, 10, 11, 12, 13, 14, 16, 17, 18, 19, 20, 21, 22, 23, 24, 25, 26, 27, 32, 33, 34]
@@ -57,7 +58,7 @@ structure Frame where
 
 def Frame.Ok (f : Frame) : Prop :=
   (∀ x ∈ f.pending, x.wf = true) ∧ f.env.wf = true ∧ f.operator.wf = true ∧ f.acc.wf = true ∧
-  Proper f.acc ∧ ∃ ob oi, f.operator = .atom ob oi
+  ∃ ob oi, f.operator = .atom ob oi
 
 /-- `[swap, eval, cons]` once per pending operand -/
 def sec : Nat → List Op
@@ -129,6 +130,12 @@ def StepAgree (cost B : Nat) (Next : St → MState → Prop)
   | .error e, .ok _ => BadR e
   | .ok (c, sr), .error e' => BadM e' ∨ (e' = .err .CostExceeded ∧ cost + c > B ∧ sr.guards = [])
 
+theorem StepAgree.stack {cost B : Nat} {Next : St → MState → Prop} (mr : M (Nat × MState)) :
+    StepAgree cost B Next (.error .stack) mr := by
+  cases mr with
+  | error _ => trivial
+  | ok _ => exact Or.inr rfl
+
 /-! ### primitives -/
 
 theorem push_cases (s : MState) (v : Val) :
@@ -149,8 +156,9 @@ theorem rpush_cases (ad : Adapters) (st : St) (v : Tree) :
   | none => exact Or.inr rfl
   | some lim => simp only; split <;> simp
 
-theorem coreAd_coreOnly : coreAd.coreOnly = true := rfl
-theorem coreAd_lenient : coreAd.lenientLists = false := rfl
+theorem coreAd_noSoftfork : coreAd.noSoftfork = true := rfl
+theorem coreAd_noInner : coreAd.noInnerForm = false := rfl
+theorem coreAd_lenient : coreAd.lenientLists = true := rfl
 
 theorem gc_false (o : Val) : dial.gcCandidate o = false := by
   simp [dial, chiaDialect, hasFlag]
@@ -489,12 +497,73 @@ theorem eval_agree (K : List Frame) (hK : ∀ f ∈ K, f.Ok) (prog env : Val) (h
     simp only [Val.wf, Bool.and_eq_true] at hp
     cases opNode with
     | pair X Y =>
-      have hr : evalOp coreAd sr = .error .outOfDomain := by
-        simp only [evalOp, hrv, Val.erase, coreAd_coreOnly, if_true]
-      rw [hr]
-      cases evalPair {} dial sm ((X.pair Y).pair opList) env with
-      | error e => trivial
-      | ok r => exact Or.inl rfl
+      -- the `((X) . operands)` form: the operand list goes to the operator unevaluated
+      simp only [evalOp, hrv, Val.erase, coreAd_noInner, Bool.false_eq_true, if_false, coreAd_lenient, if_true]
+      simp only [evalPair]
+      cases Y with
+      | pair Y1 Y2 =>
+        -- more than one element in the inner list
+        have hg : ∃ msg, getArgs1 (X.pair (Y1.pair Y2)) "in the ((X)...) syntax, the inner list" = .error (.InvalidOpArg msg) := by
+          rcases getArgs1_cases (X.pair (Y1.pair Y2)) "in the ((X)...) syntax, the inner list" with ⟨x, b, i, hx, _⟩ | ⟨_, msg, hm⟩
+          · cases hx
+          · exact ⟨msg, hm⟩
+        obtain ⟨msg, hg⟩ := hg
+        rw [hg]
+        simp only [liftE, bind, Except.bind, Val.erase, Bool.or_true, if_true]
+        trivial
+      | atom yb yi =>
+        have hg : getArgs1 (X.pair (Val.atom yb yi)) "in the ((X)...) syntax, the inner list" = .ok X := by
+          rcases getArgs1_cases (X.pair (Val.atom yb yi)) "in the ((X)...) syntax, the inner list" with ⟨x, b, i, hx, hm⟩ | ⟨hn, _⟩
+          · cases hx; exact hm
+          · exact absurd rfl hn
+        rw [hg]
+        simp only [liftE, bind, Except.bind, Val.erase, Bool.or_false]
+        rw [isPair_erase]
+        cases hXp : X.isPair with
+        | true => simp only [if_true]; trivial
+        | false =>
+          simp only [Bool.false_eq_true, if_false]
+          obtain ⟨xb, xi, rfl⟩ : ∃ xb xi, X = Val.atom xb xi := by
+            cases X with
+            | atom xb xi => exact ⟨xb, xi, rfl⟩
+            | pair _ _ => simp [Val.isPair] at hXp
+          simp only [Val.wf, Bool.and_eq_true] at hp
+          let f : Frame := { pending := [], env := env, operator := .atom xb xi, acc := opList }
+          have hf : f.Ok := ⟨by simp [f], he, hp.1.1, hp.2, xb, xi, rfl⟩
+          simp only [Val.erase]
+          rcases rpush_cases coreAd ({ sr with valueStack := valsR K, depth := sr.depth - 1 }) (Tree.atom xb) with h1 | h1
+          · rw [h1]; exact StepAgree.stack _
+          · rw [h1]
+            simp only
+            rcases rpush_cases coreAd ({ sr with valueStack := Tree.atom xb :: valsR K, depth := sr.depth - 1 + 1 }) opList.erase
+              with h2 | h2
+            · rw [h2]; exact StepAgree.stack _
+            · rw [h2]
+              simp only
+              cases hpe : sm.pushEnv env with
+              | error e => exact Or.inl (pushEnv_err hpe)
+              | ok s1 =>
+                have sh1 := pushEnv_ok hpe
+                simp only
+                cases hp1 : s1.push (Val.atom xb xi) with
+                | error e => exact Or.inl (push_err hp1)
+                | ok s2 =>
+                  have sh2 := push_ok hp1
+                  simp only
+                  cases hp2 : s2.push opList with
+                  | error e => exact Or.inl (push_err hp2)
+                  | ok s3 =>
+                    have sh3 := push_ok hp2
+                    simp only [pure, Except.pure]
+                    refine ⟨rfl, Next.args f ⟨?_, ?_, hrg, ?_, ?_, ?_, ?_, hf, hK⟩⟩
+                    · simp only [argsOpsR, f, List.length_nil, sec, List.nil_append, hro]
+                    · simp only [argsValsR, f, List.map_nil, List.nil_append, Val.erase]
+                    · simp only [MState.pushOp, argsOpsM, f, List.length_nil, List.replicate_zero, List.nil_append]
+                      rw [sh3.o, sh2.o, sh1.o, hmo]
+                    · simp only [MState.pushOp, argsValsM, f, List.nil_append]
+                      rw [sh3.v, sh2.v, sh1.v, hmv]
+                    · simp only [MState.pushOp]; rw [sh3.e, sh2.e, sh1.e, hme]
+                    · simp only [MState.pushOp]; rw [sh3.s, sh2.s, sh1.s, hms]
     | atom ob oi =>
       simp only [evalPair]
       by_cases hq : ob = [UInt8.ofNat 1]
@@ -540,7 +609,7 @@ theorem eval_agree (K : List Frame) (hK : ∀ f ∈ K, f.Ok) (prog env : Val) (h
               cases St.push coreAd st2 false_ <;> rfl
         rw [hre]
         let f : Frame := { pending := (argList opList).reverse, env := env, operator := .atom ob oi, acc := Val.nil }
-        have hf : f.Ok := ⟨argList_rev_wf hp.2, he, hp.1, nil_wf, rfl, ob, oi, rfl⟩
+        have hf : f.Ok := ⟨argList_rev_wf hp.2, he, hp.1, nil_wf, ob, oi, rfl⟩
         rcases refCall_cases coreAd ({ sr with valueStack := valsR K, depth := sr.depth - 1, opStack := .apply :: sr.opStack })
             hrg (.atom ob) env.erase opList with ⟨e, hr, hre'⟩ | ⟨hn, st', hr, rsh⟩
         · rw [hr]
@@ -804,8 +873,8 @@ theorem sim (B : Nat) (hA : ApplyCase B) : ∀ (fm fr : Nat) (sr : St) (sm : MSt
             refine ⟨rfl, Or.inr ⟨{ f with acc := .pair v f.acc }, K', ⟨rfl, rfl, h.rg, sh.o, sh.v, ?_, ?_, ?_, hKok⟩⟩⟩
             · rw [sh.e]; exact h.me
             · rw [sh.s]; exact h.ms
-            · obtain ⟨h1, h2, h3, h4, h5, h6⟩ := hfok
-              exact ⟨h1, h2, h3, by simp [Val.wf, h.wf, h4], h5, h6⟩
+            · obtain ⟨h1, h2, h3, h4, h6⟩ := hfok
+              exact ⟨h1, h2, h3, by simp [Val.wf, h.wf, h4], h6⟩
     · -- an argument list has been extended
       cases hpend : f.pending with
       | nil => exact hA fm fr f K sr sm cost ro mo (fun fr' sr' sm' cost' ro mo => ih fr' sr' sm' cost' ro mo) hc h hpend hr hm
@@ -813,8 +882,8 @@ theorem sim (B : Nat) (hA : ApplyCase B) : ∀ (fm fr : Nat) (sr : St) (sm : MSt
         -- `SwapEval` / `swap; eval`
         let f' : Frame := { f with pending := rest }
         have hfok : f'.Ok := by
-          obtain ⟨h1, h2, h3, h4, h5, h6⟩ := h.fok
-          exact ⟨fun x hx => h1 x (by rw [hpend]; exact List.mem_cons_of_mem _ hx), h2, h3, h4, h5, h6⟩
+          obtain ⟨h1, h2, h3, h4, h6⟩ := h.fok
+          exact ⟨fun x hx => h1 x (by rw [hpend]; exact List.mem_cons_of_mem _ hx), h2, h3, h4, h6⟩
         have hawf : a.wf = true := h.fok.1 a (by rw [hpend]; simp)
         have hKok : ∀ g ∈ f' :: K, g.Ok := by
           intro g hg
@@ -908,6 +977,10 @@ theorem evalPair_sf {s s' : MState} {p e : Val} {k : Nat} (hp : p.wf = true)
         exact (push_ok h1).s
       · exact (evalOpAtom_ok hq h).2.2.s
 
+/-- the dialect's dispatch does not look at the terminator of the argument list -/
+theorem dial_op_ti (o a : Val) (m : Nat) (ext : OperatorSet) (c : Ctr) :
+    dial.op o (truncV a) m ext c = dial.op o a m ext c := chiaOp_ti o a 0 m ext c
+
 /-- agreement of the two operator tables on one call -/
 def DispRel (m : Nat) (mo : Option (Except Err (Nat × Val × Ctr))) (ro : Res) : Prop :=
   match mo with
@@ -949,7 +1022,7 @@ theorem rloop_succ_eval' (B fr cost : Nat) (ops : List Op) (vals : List Tree) (g
 
 theorem apply_case (hD : DispatchAgree) (B : Nat) (hB : B < 2 ^ 64) : ApplyCase B := by
   intro fm fr f K sr sm cost ro mo ih hc h hpend hr hm
-  obtain ⟨hpw, hew, how, haw, hap, ob, oi, hop⟩ := h.fok
+  obtain ⟨hpw, hew, how, haw, ob, oi, hop⟩ := h.fok
   have hmo : sm.opStack = Operation.Apply :: opsM K := by rw [h.mo]; simp [argsOpsM, hpend]
   have hmv : sm.valStack = f.acc :: f.operator :: valsM K := by rw [h.mv]; simp [argsValsM, hpend]
   have hro : sr.opStack = .apply :: opsR K := by rw [h.ro]; simp [argsOpsR, hpend, sec]
@@ -1045,7 +1118,7 @@ theorem apply_case (hD : DispatchAgree) (B : Nat) (hB : B < 2 ^ 64) : ApplyCase 
       | false => rfl
       | true => exact absurd ((bytes_kw ob 2 (by decide)).1 hb) ha
     simp only [hkm, Bool.false_eq_true, if_false] at hm
-    simp only [Ref.applyOp, hrv, hop, Val.erase, hkr, Bool.false_eq_true, if_false, coreAd_coreOnly, Bool.true_and] at hr
+    simp only [Ref.applyOp, hrv, hop, Val.erase, hkr, Bool.false_eq_true, if_false, coreAd_noSoftfork, Bool.true_and] at hr
     by_cases hs : ob = [UInt8.ofNat 36]
     · -- opcode 36 is outside the fragment
       have hsr : (ob.map UInt8.toNat == [0x24]) = true := (bytes_kw ob 36 (by decide)).2 hs
@@ -1066,9 +1139,9 @@ theorem apply_case (hD : DispatchAgree) (B : Nat) (hB : B < 2 ^ 64) : ApplyCase 
         | false => rfl
         | true => exact absurd ((bytes_kw ob 36 (by decide)).1 hb) hs
       simp only [hsm, Bool.false_eq_true, if_false] at hm
-      simp only [hsr, Bool.false_eq_true, if_false, h.rg, List.head?_nil, Option.map_none, coreAd_lenient] at hr
+      simp only [hsr, Bool.false_eq_true, if_false, h.rg, List.head?_nil, Option.map_none, coreAd_lenient, if_true] at hr
       have hrr : rAfter B fr cost
-          (match coreAd.lookup none operatorLookup ob f.acc.erase with
+          (match coreAd.lookup none operatorLookup ob (truncateList f.acc.erase) with
            | .error e => .error e
            | .ok (additionalCost, r) =>
              match St.push coreAd ({ opStack := opsR K, valueStack := valsR K, guards := [], depth := sr.depth - 2 }) r with
@@ -1081,7 +1154,8 @@ theorem apply_case (hD : DispatchAgree) (B : Nat) (hB : B < 2 ^ 64) : ApplyCase 
       have hce : curExt sb = .Default := by simp [curExt, sbs]
       unfold applyOrdinary at hm
       rw [hce] at hm
-      have hd := hD ob oi f.acc (B - cost) sb.ctr (by omega) how haw hap ha hs
+      have hd := hD ob oi (truncV f.acc) (B - cost) sb.ctr (by omega) how (truncV_wf haw) (truncV_proper _) ha hs
+      rw [dial_op_ti, truncV_erase] at hd
       refine after_agree ih ?_ hrr hm
       unfold DispRel at hd
       cases hmo' : dial.op (Val.atom ob oi) f.acc (B - cost) OperatorSet.Default sb.ctr with
@@ -1100,7 +1174,7 @@ theorem apply_case (hD : DispatchAgree) (B : Nat) (hB : B < 2 ^ 64) : ApplyCase 
             cases ({ sb with ctr := c' } : MState).push v with
             | error e => trivial
             | ok s1 => exact Or.inl rfl
-        · cases hro' : coreAd.lookup none operatorLookup ob f.acc.erase with
+        · cases hro' : coreAd.lookup none operatorLookup ob (truncateList f.acc.erase) with
           | error e =>
             rw [hro'] at hd
             obtain ⟨e', he', _⟩ := hd
